@@ -433,6 +433,12 @@ func sortTarHeaders(headers []tar.Header) []tar.Header {
 	for _, header := range headers {
 		// Use a cleaned name for map keys to ensure consistency with lookups later.
 		cleanedName := filepath.Clean(header.Name)
+		if cleanedName == "." {
+			// The archive root ("./") is its own parent (filepath.Dir(".") == "."):
+			// listed as a child of itself it makes sortChildrenTarHeaders recurse
+			// until the stack overflows. The root is not recorded in the database.
+			continue
+		}
 
 		dir := filepath.Dir(cleanedName)
 		directoryChildren[dir] = append(directoryChildren[dir], cleanedName)
